@@ -5,6 +5,42 @@ NOTES = ("Technique: machine-checked proof in Lean 4 of theorems about a hand-wr
 NOT_APPLICABLE_REASON = {}
 
 CLAIMS = {
+ "C06": {
+  "text": "Proved in Lean for a byte-exact model of the encoders (elements of every CBOR head width, references, type info, extra data, array data slabs root/non-root, array index slabs, large-value slabs): encoded length = reported size + extra data, minus exactly 16 bytes for an omitted empty sibling link; a decoded slab reports the size of the slab that produced the register; no uint16 truncation under the C05 invariant. The model's bytes are compared with EncodeSlab's bytes for every slab of every generated history. Partial: map slabs, inlined children and the shared extra-data section (the compact-map exception) are not in the byte-level model; for them only the model-free oracle len(Encode)=ByteSize runs.",
+  "design_ref": "DESIGN.md 7/C06, 13",
+  "note": "Trusted: Lean kernel; Encode.lean transcription (validated byte-for-byte); harness value codec. Hypotheses DataOK/MetaOK follow from C05.",
+  "technique": "Lean 4 proof over a byte-exact encoder model + byte-for-byte correspondence with EncodeSlab",
+ },
+ "C07": {
+  "text": "Proved in Lean: decode(encode s) = s and re-encoding is a fixpoint for array data / index / large-value slabs; the three header queries on the raw bytes are truthful (root flag, has-pointers, size-limit) with no hypothesis on the slab; trailing bytes after a v1 data or index slab are rejected. Tie: every register of every history is decoded by both sides and compared; hand-crafted v0 forms decode to the same slab. Partial: maps / inlined children / compact maps not at byte level (oracle Encode(Decode(reg))==reg runs on everything).",
+  "design_ref": "DESIGN.md 7/C07, 13",
+  "note": "Trusted: as C06 plus Decode.lean transcription (validated on ~50k registers per run incl. malformed ones).",
+  "technique": "Lean 4 round-trip proof over byte-exact encoder/decoder models + register-level correspondence",
+ },
+ "C19": {
+  "text": "Proved in Lean: the transcribed decoders (DecodeSlab dispatch, array data and index slabs in both versions, large-value slabs, extra data, slab IDs, the three header queries, and the harness's storable decoder) never reach a 'panic' outcome for ANY byte string and any slab ID - every Go slice expression, fixed-offset read and make() carries its bounds condition - terminate by structural recursion, and allocate at most the input length. Tie: outcome class equal to the real DecodeSlab on ~30000 mutated registers per run; the transcribed CBOR validator is compared with the library. Partial: map decoders and inlined-children decoders are exercised by the malformed stream under recover+watchdog only; panics inside the CBOR library / Go runtime are not modelled.",
+  "design_ref": "DESIGN.md 7/C19, 13",
+  "note": "Trusted: Decode.lean transcription, CBOR contract model (validated against the library).",
+  "technique": "Lean 4 totality / no-panic proof over a three-outcome decoder model + malformed-input differential runs",
+ },
+ "C09": {
+  "text": "Proved in Lean (arrays): the SlabStorage calls of insert/set/remove are a complete account of how the slab tree changed (changed or new slabs stored, departed slabs removed, nothing else touched), emptying an array removes every slab except the rewritten root, no slab is owned twice, allocated IDs are fresh; the graph-level characterisation of a healthy storage is C20's health_sound/complete. Maps, collision-group slabs and inline<->standalone transitions: tied by per-operation comparison of the net storage effect with the map/World models and checked on the implementation by the health check with the exact expected root count.",
+  "design_ref": "DESIGN.md 7/C09, 13",
+  "note": "Partial: map-level effects_complete is correspondence-only. The premise 'the caller disposes of returned values' is implemented by the harness (DSP).",
+  "technique": "Lean 4 proof of effect-log completeness by induction on tree depth + effect-log correspondence + storage health oracle",
+ },
+ "C10": {
+  "text": "Proved in Lean for the value-level World model (one current handle per container): a child is inline exactly when it is a single slab that fits the slot's budget after wrappers, the parent element carries the size of the child's current form, the parent slot is refreshed by the notification, value IDs are stable under all five operations and both transitions, a handed-back child is standalone, index shifts are order independent. Tie: ~20000 nested operations per run replayed on the model with nested structural dumps. The histories excluded by the hypothesis (two live handles to one container) violate the property on the real code: known findings F2/F2b, printed as KNOWN-FINDING.",
+  "design_ref": "DESIGN.md 7/C10, 8, 13",
+  "note": "Partial: persistence of child mutations composes with C03 by correspondence (commit+reload oracle), not by a Lean theorem; facts about Arr.set on reference elements are hypotheses (validated by correspondence).",
+  "technique": "Lean 4 proof over a model of the parent-callback protocol + nested-history correspondence; known-finding signatures for dual handles",
+ },
+ "C11": {
+  "text": "Proved in Lean: when the slot recorded by a child's callback no longer holds that child (index forgotten, key absent, or another value / another container in the slot) the notification changes NOTHING but the child's own callback - no container, no index table, no storage effect; removal forgets the index; a detached child is handed back as a reference to a standalone slab with unchanged value ID. Tie and oracle: nested stream with detach / replace-by-container / mutate-detached / re-attach; former parent's dump must be unchanged.",
+  "design_ref": "DESIGN.md 7/C11, 13",
+  "note": "Trusted: World.lean transcription (validated by correspondence). One current handle per container.",
+  "technique": "Lean 4 proof by control-flow unfolding of the callback model + detach/replace differential histories",
+ },
  "C01": {
   "text": "Lean theorems prove that the array model (a line-by-line transcription of array.go, array_data_slab.go, array_metadata_slab.go incl. split, merge, lend/borrow, root split and promotion, both routing branches) refines plain List operations: for EVERY legal slab size 256..32768, every history, every position and every element size (values larger than the inline limit are externalised), Get/Set/Insert/Remove/PopIterate return what the list returns, in-range requests never fail (the unreachable no-sibling and too-few-elements branches are proved unreachable), root ID and type are stable. The model is tied to the code by replaying every operation of generated histories and comparing observations, storage effects and full structural dumps.",
   "design_ref": "DESIGN.md 7/C01, Appendix B",
